@@ -312,6 +312,9 @@ impl C14 {
 }
 
 impl NodeMon for C14 {
+    fn through_rights_divergence(&self) -> bool {
+        true
+    }
     fn node(&mut self, n: &Node, rep: &mut Report, rng: &mut Rng) {
         if !same_core(&read_board(n.b), n.p) {
             return;
